@@ -19,7 +19,7 @@
 (* Types T:                                                                *)
 (*   [k|->"prim",p]  p \in {"none","bool","int","float","str"}             *)
 (*   [k|->"any"]                                                           *)
-(*   [k|->"coll",c,e]   c \in {"list","set","fset","vtuple"}               *)
+(*   [k|->"coll",c,e]   c \in {"list","set","fset","vtuple","seq"}         *)
 (*   [k|->"tuple",es] [k|->"map",kt,vt] [k|->"union",alts]                 *)
 (*   [k|->"lit",vals : Seq(primitive datum)] [k|->"enum",cls]              *)
 (*   [k|->"newtype",name,sup] [k|->"annot",t,cons] [k|->"obj",cls]         *)
@@ -435,7 +435,7 @@ RD(ctx, T, cons, d) ==
                   vs   == [i \in DOMAIN r |-> r[i].v]
               IN IF own \cup sub # {} THEN BadX(own \cup sub, subx)
                  ELSE IF \E i \in DOMAIN r : IsUnspec(r[i]) THEN Unspecified
-                 ELSE Ok(CASE T.c = "list"   -> VList(vs)
+                 ELSE Ok(CASE T.c \in {"list", "seq"} -> VList(vs)         \* an abstract Sequence[X] is built as a list
                            [] T.c = "vtuple" -> VTuple(vs)
                            [] T.c = "set"    -> VSet(Range(vs))
                            [] T.c = "fset"   -> VFSet(Range(vs)))
